@@ -210,6 +210,8 @@ class ProgramResult:
                                "content": f.content_text})
         self.makedirs = [(p, e) for p, e in trace.get("makedirs_text", [])]
         self.nondeterminism = list(trace.get("nondeterminism", []))
+        self.consulted_output = list(trace.get("consulted_output", []))
+        self.encodings = [e if isinstance(e, str) else repr(e) for e in trace.get("encodings", [])]
         self.order_dependent_calls = list(trace.get("fs_order_dependent", []))
         self.holes = holes
 
@@ -233,6 +235,8 @@ def run_program(session, tree_factory, order=None, runs=1, max_paths=64):
             World.trace["fs"] = fs
             World.trace["files"] = []
             World.trace["makedirs"] = []
+            World.trace["consulted_output"] = []
+            World.trace["encodings"] = []
             it.call(it.getattr(gen, "generate"), [PathObj("/out")], {})
             sk = _Renderer()
             for f in World.trace["files"]:
